@@ -24,11 +24,14 @@ literal-index table.  Proved here, for all stores:
 * `compile_after_history` — **the MIR**: if the program compiles to `m` in a fresh process, then after any history it
   compiles to `m` renamed (`Lemmas/Rename.lean`: the compiler walk commutes with any injective renaming of ids and
   literal names — `compile_ren`, by induction over the traversal, the output list and the function worklist).
-Not proved: the converse for *failing* compilations (that a compilation which fails in a fresh process fails alike
-after a history); the K3 run compares those outcomes on the real code.
+* `compile_after_history_fails` / `after_history_fails_alike` — **failing compilations**: a compilation that fails in a fresh
+  process (duplicate input names, a record of the wrong kind, …) fails with the same error after any history
+  (`Lemmas/MonoErr.lean`: monotonicity of failing compilations in the store).  Excluded: the model's "out of fuel" error,
+  which no reachable store produces in the K-runs but whose impossibility is not proved here.
 -/
 import NadaVerif.Lemmas.Mono
 import NadaVerif.Lemmas.Shift
+import NadaVerif.Lemmas.MonoErr
 import NadaVerif.Lemmas.Exact
 import NadaVerif.Props.C01
 
@@ -153,6 +156,32 @@ theorem compile_after_history (n : Nat) (hist : List (Id × AstOp)) (lits : List
     (outs.map (OutDecl.ren (histRen n hist lits cs))) (m.ren (histRen n hist lits cs)) h1
   rw [← hops] at h2
   exact h2
+
+/-- … and a compilation that **fails** in a fresh process fails with the same error after any history — for every error
+but "an id is missing" and "out of fuel", the two a larger store could turn into something else.  (For outputs taken from the
+program's registers the first cannot occur: `after_history_fails_alike`.) -/
+theorem compile_after_history_fails (n : Nat) (hist : List (Id × AstOp)) (lits : List String) (cs : List Cmd)
+    (outs : List OutDecl) (e : Err) (hc : compile (runCmds {} cs).1.st outs = .error e) (hk : e ≠ .key) (hu : e ≠ .unsupported) :
+    compile (runCmds { st := ⟨n, hist, lits⟩ } cs).1.st (outs.map (OutDecl.ren (histRen n hist lits cs))) = .error e := by
+  obtain ⟨_, _, hops, _, _, hinj⟩ := trace_shift_equivariant n hist lits cs
+  have h1 := compile_ren hinj (runCmds {} cs).1.st outs
+  rw [hc] at h1
+  have h2 := compile_mono_err
+    (lookup_append ((runCmds {} cs).1.st.ops.map (renE (histRen n hist lits cs))) hist
+      (runCmds {} cs).1.st.counter (runCmds { st := ⟨n, hist, lits⟩ } cs).1.st.counter
+      (runCmds {} cs).1.st.lits (runCmds { st := ⟨n, hist, lits⟩ } cs).1.st.lits)
+    (fuel_append _ hist _ _ _ _) (by simp) (outs.map (OutDecl.ren (histRen n hist lits cs))) e h1 hk hu
+  rw [← hops] at h2
+  exact h2
+
+/-- for outputs declared on the program's own registers: whatever the fresh compilation answers — a MIR, or an error other
+than running out of fuel — the compilation after the history answers the same, renamed -/
+theorem after_history_fails_alike (n : Nat) (hist : List (Id × AstOp)) (lits : List String) (cs : List Cmd)
+    (outs : List OutDecl) (ho : C01.OutsFromRegs (runCmds {} cs).1.regs outs) (e : Err)
+    (hc : compile (runCmds {} cs).1.st outs = .error e) (hu : e ≠ .unsupported) :
+    compile (runCmds { st := ⟨n, hist, lits⟩ } cs).1.st (outs.map (OutDecl.ren (histRen n hist lits cs))) = .error e :=
+  compile_after_history_fails n hist lits cs outs e hc
+    (fun hk => C01.trace_compile_no_missing cs outs ho (hk ▸ hc)) hu
 
 /-- the outputs of the later compilation are the same registers: an output declared on register `r` of the fresh run
 is declared, after the history, on the same register, whose value carries the shifted id -/
